@@ -730,3 +730,32 @@ end Agd.Normalize
 #print axioms Agd.Tie.TrC08.translation_complete
 #print axioms Agd.Tie.TrC08.maxDNSSize_tr
 #print axioms Agd.Tie.TrC08.maxDNSSize_formula
+#print axioms Agd.Tie.TrC08.padding_support_iff
+#print axioms Agd.Tie.TrC08.hasPadding_tr
+#print axioms Agd.Tie.TrC08.normalizeTCP_args
+#print axioms Agd.Tie.TrC08.stream_limit
+#print axioms Agd.Tie.TrC08.normalize_truncates_once
+#print axioms Agd.Tie.TrC08.normalize_no_opt
+#print axioms Agd.Tie.TrC08.normalize_opt_echo_own
+#print axioms Agd.Tie.TrC08.normalize_opt_echo_synth
+#print axioms Agd.Tie.TrC08.normalize_padding_iff
+#print axioms Agd.Tie.TrC08.normalize_after_truncate
+#print axioms Agd.Tie.TrC08.truncate_first
+#print axioms Agd.Tie.TrC08.truncate_answers_iff
+#print axioms Agd.Tie.TrC08.truncate_drops_options_iff
+#print axioms Agd.Tie.TrC08.truncate_answers_tr
+#print axioms Agd.Tie.TrC08.dropOpts_tr
+#print axioms Agd.Tie.TrC08.pad_only_when_requested
+#print axioms Agd.Tie.TrC08.pad_length
+#print axioms Agd.Tie.TrC08.padLen_tr
+#print axioms Agd.Tie.TrC08.keepalive_only_when_requested
+#print axioms Agd.Tie.TrC08.keepalive_timeout
+#print axioms Agd.Tie.TrC08.keepalive_value_tr
+#print axioms Agd.Tie.TrC08.pack_guard
+#print axioms Agd.Tie.TrC08.pack_prefix_exact
+#print axioms Agd.Tie.TrC08.pack_error
+#print axioms Agd.Tie.TrC08.emitted_tr
+#print axioms Agd.Tie.TrC08.doq_write_path
+#print axioms Agd.Tie.TrC08.doh_normalizes_first
+#print axioms Agd.Tie.TrC08.doh_no_size_guard
+#print axioms Agd.Tie.TrC08.genErrorResponse_tr
